@@ -47,6 +47,7 @@
     0x00001000 /* ptrdiff_t (d, i, u, o, x, X); ptrdiff_t* (n) */
 #define OPS_LEN_LONGFP 0x00002000 /* long double (f, F, e, E, g, G, a, A) */
 #define OPS_SPEC_UPPER_CASE 0x00004000 /* specifier is tall */
+#define OPS_SPEC_POINTER 0x00008000    /* %p: 0x prefix for a null pointer too */
 
 /**
  * Options for print_s
@@ -120,22 +121,29 @@ static int print_i(void (*printchar_handler)(void *d, int c),
     prefix = is_signed && ((long long int)u < 0)         ? (u = -u, "-")
              : is_signed && (ops & OPS_FLAG_WITH_SIGN)   ? "+"
              : is_signed && (ops & OPS_FLAG_EXTRA_SPACE) ? " "
-             : (base == 8) && (ops & OPS_FLAG_WITH_SPEC) ? "0"
-             : (base == 16) && (ops & OPS_FLAG_WITH_SPEC)
+             : (base == 8) && (ops & OPS_FLAG_WITH_SPEC) && u ? "0"
+             : (base == 16) && (ops & OPS_FLAG_WITH_SPEC) &&
+                     (u || (ops & OPS_SPEC_POINTER))
                  ? ops & OPS_SPEC_UPPER_CASE ? "0X" : "0x"
                  : "";
     pc = 0;
     prefix_len = (int)strlen(prefix);
     letter_base = ops & OPS_SPEC_UPPER_CASE ? 'A' : 'a';
 
-    do
+    /* a zero value converted with an explicit precision of 0 has no digits
+     * (the alternate octal form still prints its single 0) */
+    if (u || min_len || !(ops & OPS_PREC_IS_GIVEN) ||
+        ((base == 8) && (ops & OPS_FLAG_WITH_SPEC)))
     {
-        ch = u % base;
-        if (ch >= 10)
-            ch += letter_base - 10 - '0';
-        *--str = ch + '0';
-        u /= base;
-    } while (u);
+        do
+        {
+            ch = u % base;
+            if (ch >= 10)
+                ch += letter_base - 10 - '0';
+            *--str = ch + '0';
+            u /= base;
+        } while (u);
+    }
 
     len = (int)(end - str);
     zero_count =
@@ -593,7 +601,8 @@ int __printf(void (*printchar_handler)(void *d, int c),
                           0,
                           width,
                           sizeof tmp.vp * 2 + 2,
-                          ops | (OPS_FLAG_WITH_SPEC | OPS_FLAG_ZERO_PAD),
+                          ops | (OPS_FLAG_WITH_SPEC | OPS_FLAG_ZERO_PAD |
+                                 OPS_SPEC_POINTER),
                           16);
             break;
         case 'n':
